@@ -18,6 +18,8 @@ type Observation struct {
 	Classes  []string            `json:"classes"`
 	Specs    map[string][]string `json:"vendor_spec_paths"`
 	ErrPaths []string            `json:"error_paths"`
+	// ErrTexts: the first error recorded per path, for the failure report only (no comparison uses it)
+	ErrTexts map[string]string `json:"error_texts,omitempty"`
 }
 
 // Observe queries a cache through its public API only.
@@ -73,8 +75,18 @@ func Observe(c *cdi.Cache) Observation {
 		o.Specs[v] = ps
 	}
 	errs := c.GetErrors()
-	for p := range errs {
+	for p, l := range errs {
 		o.ErrPaths = append(o.ErrPaths, p)
+		if len(l) > 0 && l[0] != nil {
+			if o.ErrTexts == nil {
+				o.ErrTexts = map[string]string{}
+			}
+			t := l[0].Error()
+			if len(t) > 300 {
+				t = t[:300]
+			}
+			o.ErrTexts[p] = t
+		}
 	}
 	for p, l := range errs {
 		for i := range l {
